@@ -143,6 +143,16 @@ func c19History(e *core.Env, r *core.Rand, idx int64) {
 		names = append(names, c19NamePool[r.Intn(len(c19NamePool))])
 	}
 	useBin := idx%16 == 5 && e.KlogBin != ""
+	// an "editor" that only records the arguments it is started with (for `klog edit @name`)
+	editLog := filepath.Join(root, "editlog.txt")
+	recorder := filepath.Join(root, "rec.sh")
+	_ = os.WriteFile(recorder, []byte("#!/bin/sh\nprintf '%s\\n' \"$#\" \"$@\" > '"+editLog+"'\n"), 0755)
+	editorCfg := "editor = " + recorder + "\n"
+	if st, serr := os.Stat(cfg); serr == nil && st.IsDir() {
+		_ = os.WriteFile(filepath.Join(cfg, "config.ini"), []byte(editorCfg), 0644)
+	} else {
+		editorCfg = "" // (the histories that start without a config folder do without the editor probe)
+	}
 	model := map[string]string{}
 	var trace []string
 	w := func() map[string]any { return map[string]any{"history": trace, "config_dir": cfg} }
@@ -159,7 +169,7 @@ func c19History(e *core.Env, r *core.Rand, idx int64) {
 			}
 			return b.Code, b.Stdout, b.Stderr, true
 		}
-		res := obs.RunCLI(obs.CLIEnv{ConfigDir: cfg, Cpus: 1, Theme: "no_colour", Clock: obs.ClockAt(ref.Date{Y: 2024, M: 3, D: 15}, 600, 0)}, args...)
+		res := obs.RunCLI(obs.CLIEnv{ConfigDir: cfg, Cpus: 1, Theme: "no_colour", ConfigFile: editorCfg, Clock: obs.ClockAt(ref.Date{Y: 2024, M: 3, D: 15}, 600, 0)}, args...)
 		if res.Panic != nil {
 			e.Violation("bookmark-command-panics: "+res.Panic.Site(), fmt.Sprintf("klog %q: %s", args, res.Panic.Value), w())
 			return -1, "", "", false
@@ -337,6 +347,50 @@ func c19History(e *core.Env, r *core.Rand, idx int64) {
 		obsRound++
 		if !c19Observe(e, r, observe, model, dbPath, targetAbs, step == nOps-1, w) {
 			return
+		}
+		if len(model) > 0 && r.Chance(1, 3) {
+			keys := make([]string, 0, len(model))
+			for k := range model {
+				keys = append(keys, k)
+			}
+			sort.Strings(keys)
+			totalOf := func(abs string) int {
+				for t, a := range targetAbs {
+					if a == abs {
+						return 1000 + t
+					}
+				}
+				return -1
+			}
+			// two bookmark arguments in one command (possibly the same bookmark, possibly two names for one file): each is
+			// resolved on its own and contributes its file
+			k1, k2 := keys[r.Intn(len(keys))], keys[r.Intn(len(keys))]
+			if t1, t2 := totalOf(model[k1]), totalOf(model[k2]); t1 >= 0 && t2 >= 0 && !strings.HasPrefix(k1, "-") && !strings.HasPrefix(k2, "-") {
+				code, out, _, ok := run("total", "--decimal", "--no-style", "--no-warn", "@"+k1, "@"+k2)
+				if !ok {
+					return
+				}
+				to, perr := parseTotalOutput(out)
+				if code != 0 || perr != nil || to.Total != strconv.Itoa(t1+t2) {
+					e.Violation("bookmark-resolution-wrong", fmt.Sprintf("`klog total @%s @%s` (exit %d) printed %q; the two bookmarks point to files whose totals are %d and %d", k1, k2, code, trunc(out, 200), t1, t2), w())
+					return
+				}
+				e.Count("two_bookmark_argument_probes", 1)
+			}
+			// `klog edit @name` hands the editor exactly the bookmark's path, as one argument
+			if editorCfg != "" && !strings.HasPrefix(k1, "-") && totalOf(model[k1]) >= 0 {
+				_ = os.Remove(editLog)
+				code, out, _, ok := run("edit", "@"+k1)
+				if !ok {
+					return
+				}
+				got, _ := os.ReadFile(editLog)
+				if code != 0 || string(got) != "1\n"+model[k1]+"\n" {
+					e.Violation("bookmark-resolution-wrong", fmt.Sprintf("`klog edit @%s` (exit %d, output %q) started the editor with the arguments (count, then one per line)\n%s\nthe bookmark points to %q", k1, code, trunc(out, 200), trunc(string(got), 400), model[k1]), w())
+					return
+				}
+				e.Count("edit_probes", 1)
+			}
 		}
 		e.Count("operations", 1)
 	}
